@@ -99,9 +99,10 @@ class Leg:
         if rest is None:
             return None
         rest = simp(rest)
-        pk = self.ident()
-        a = Leg('P', (pk, str(first), 0), first, origin=f'{self}/0', parent=(self, 0))
-        b = Leg('P', (pk, str(first), 1), rest, origin=f'{self}/1', parent=(self, 1))
+        me = self.resolve()
+        pk = (me.kind, me.key)          # (the parts of an index and of its conjugate have the same key and differ in variance / conjugation, like the index itself)
+        a = Leg('P', (pk, str(first), 0), first, me.var, me.conj, origin=f'{self}/0', parent=(self, 0))
+        b = Leg('P', (pk, str(first), 1), rest, me.var, me.conj, origin=f'{self}/1', parent=(self, 1))
         return a, b
 
     def flipped(self):
@@ -112,12 +113,19 @@ class Leg:
             return Leg('M', self.key, self.size, -self.var, self.conj, self.origin)
         if self.kind == 'I':
             return Leg('I', self.key, self.size, 0, False, self.origin, self.cell, not self.flip, self.side)
+        if self.kind == 'P':
+            fp = self.parent[0].flipped()
+            fr = fp.resolve()
+            return Leg('P', self.key, self.size, fr.var, fr.conj, self.origin, parent=(fp, self.parent[1]))
         return self
 
     def partner(self):
         """type of the index this one can be contracted with"""
         if self.kind == 'M':
             return Leg('M', self.key, self.size, -self.var, self.conj, self.origin)
+        if self.kind == 'P':
+            pp = self.parent[0].resolve().partner()
+            return Leg('P', self.key, self.size, pp.var, pp.conj, self.origin, parent=(pp, self.parent[1]))
         return self
 
     def resolve(self):
@@ -140,6 +148,8 @@ class Leg:
             return a.key == b.key and a.var == b.var
         if a.kind == 'I':
             return a.cell is b.cell and a.flip == b.flip and a.side == b.side
+        if a.kind == 'P':
+            return a.key == b.key and a.var == b.var and a.conj == b.conj
         return a.key == b.key
 
     def __repr__(self):
@@ -203,6 +213,16 @@ def can_contract(a, b):
             return f'different bonds are contracted: {a} with {b}'
         if a.conj != b.conj:
             return f'bond {a} is contracted with {b}: one side is complex-conjugated, the other is not'
+        return None
+    if a.kind == 'P':
+        # parts of a split index: like the index they are parts of
+        if a.key != b.key:
+            return f'different parts of split indices are contracted: {a} with {b}'
+        if a.key[0][0] == 'R':
+            return None if a.conj == b.conj else f'bond part {a} is contracted with {b}: one side is complex-conjugated, the other is not'
+        if a.key[0][0] == 'M' and a.var == b.var and a.var != 0:
+            what = 'two un-conjugated vector/row indices' if a.var > 0 else 'two column/conjugated indices'
+            return f'{what} are contracted: {a} with {b} (a conjugation is missing or sits on the wrong factor, or the operator is used transposed)'
         return None
     if a.key != b.key:
         return f'mode indices of different sites are contracted: {a} with {b}'
@@ -360,7 +380,10 @@ class Arr:
 
     @property
     def real(self):
-        return Arr(self.shape, self.legs, 'real' if self.dt == 'complex' else self.dt, self.buf, origin='real', parents=(self,))
+        r = Arr(self.shape, self.legs, 'real' if self.dt == 'complex' else self.dt, self.buf, {k: v for k, v in self.tags.items() if k in ('prov',)}, origin='real', parents=(self,))
+        if self.dt == 'complex':
+            CTX.event('real-part', array=self, result=r)
+        return r
 
     @property
     def imag(self):
@@ -687,7 +710,7 @@ def merge_parts(grp):
         changed = False
         for i in range(len(grp) - 1):
             x, y = grp[i], grp[i + 1]
-            if x.kind == 'P' and y.kind == 'P' and x.parent[1] == 0 and y.parent[1] == 1 and x.key[:2] == y.key[:2]:
+            if x.kind == 'P' and y.kind == 'P' and x.parent[1] == 0 and y.parent[1] == 1 and x.key[:2] == y.key[:2] and (x.var, x.conj) == (y.var, y.conj):
                 grp[i:i + 2] = [x.parent[0]]
                 changed = True
                 break
@@ -1423,7 +1446,7 @@ def adopt_legs(a, idx, sel, v):
     for k, g in zip(tgt_axes, vlegs):
         if sel[k] != ('all',) or not g:
             continue
-        if not any(l.resolve().kind in ('M', 'R', 'I') for l in g):
+        if not any(l.resolve().kind in ('M', 'R', 'I', 'X') for l in g):
             continue
         if k not in adopted:
             adopted[k] = g
